@@ -60,6 +60,18 @@ class C05(Property):
             out.append(line_for("A" + "a" * k + "xy", rng))
             out.append(line_for("Ax" + "b" * k, rng))
             out.append(line_for("Axy" + "b" * k + "a" * 3, rng))
+        # cipher lists in DIFFERENT ORDERS at the two ends with speeds that nearly tie (100.0 / 101.5 / 103.0) or tie exactly: whatever
+        # the order, both ends must come out with the same cipher
+        near = {1: "42c80000", 2: "42cb0000", 3: "42ce0000"}
+        perms = list(itertools.permutations([1, 2, 3]))
+        for p1 in perms:
+            for p2 in perms:
+                if not thorough and rng.random() < 0.6:
+                    continue
+                for speeds in (near, {1: "42c80000", 2: "42c80000", 3: "42c80000"}):
+                    a1 = "-|" + ",".join("%d:%s" % (c, speeds[c]) for c in p1)
+                    a2 = "-|" + ",".join("%d:%s" % (c, speeds[c]) for c in p2)
+                    out.append(line_for(rng.choice(["Axyx", "Byxy", "ABxyxy"]), rng, alg1=a1, alg2=a2))
         # node level: everything (or one direction) lost for L seconds, then reliable delivery for
         # peer timeout + retry horizon + slack; connection and payload in both directions checked at the end
         for L in ([0, 1, 5, 30, 100, 119, 121, 125, 130, 200, 300] if thorough else [0, 5, 119, 125, 200]):
@@ -108,6 +120,37 @@ class C05(Property):
                     s.add("A")
                 s.add("M.1.0", "M.2.0", "C.1.2", "A")
                 for _ in range(300 + 120 + 30):
+                    s.t += 1
+                    s.add("T.%d" % s.t, "H.1", "H.2", "A")
+                s.add("S.1", "S.2")
+                s.add("P.1.%s" % nu.ipv4_packet(nu.node_ip(1), nu.node_ip(2), b"\x11"), "A", "O.2")
+                s.add("P.2.%s" % nu.ipv4_packet(nu.node_ip(2), nu.node_ip(1), b"\x22"), "A", "O.1")
+                out.append(s.line())
+        # CROSSED LATE PINGS after both ends gave up: both dial during a blackout longer than the retry horizon and give up; then the
+        # last ping of each end arrives after all (each end now holds a responder state for the other and keeps sending its pong), and
+        # from then on delivery is reliable.  The two responder states must not keep each other alive: they expire, the configured
+        # peers are dialled again, the nodes connect.
+        for U in ([121, 122, 123, 126, 140] if thorough else [122, 126]):
+            for order in (0, 1):
+                s = nu.Scenario()
+                s.node(1, mode="tun-router", claims=["0a000100/24"])
+                s.node(2, mode="tun-router", claims=["0a000200/24"])
+                s.add("M.1.1", "M.2.1", "C.1.2", "C.2.1")
+                for _ in range(U):
+                    s.t += 1
+                    s.add("T.%d" % s.t, "H.1", "H.2")
+                s.add("S.1", "S.2")
+                if order == 0:
+                    s.add("L.2.1.i.0", "L.1.2.i.1")      # (the first delivery makes node 2 send a pong: its last ping is then one older)
+                else:
+                    s.add("L.1.2.i.0", "L.2.1.i.1")
+                s.add("M.1.0", "M.2.0", "R.1.2", "R.2.1")
+                # (while both responder states live each delivered pong is answered with a pong - see DESIGN, "bounce"; only the latest
+                # handshake datagram of each end is delivered per second here and the echoes are dropped, the outcome is the same)
+                for _ in range(125):
+                    s.t += 1
+                    s.add("T.%d" % s.t, "H.1", "H.2", "L.2.1.i.0", "L.1.2.i.0", "Z.0")
+                for _ in range(300 + 120 + 30 - 125):
                     s.t += 1
                     s.add("T.%d" % s.t, "H.1", "H.2", "A")
                 s.add("S.1", "S.2")
